@@ -37,6 +37,8 @@ type FuncContract struct {
 	requires []*clause
 	ensures  []*clause
 	atAssumes []*atAssume
+	atAsserts []*atAssume
+	panicsIff *clause
 	preserves []string
 	hints    []*clause // replay preferences: not facts, only used to pick a model
 	panics   string // "", "never", "may"
@@ -365,15 +367,19 @@ func (cs *Contracts) parseFile(p *packages.Package, file string) {
 				cur.preserves = append(cur.preserves, splitNames(rest)...)
 			case "at":
 				// at "source line text" assume expr
-				am := regexp.MustCompile("^\"((?:[^\"\\\\]|\\\\.)*)\"(?:#(\\d+))?\\s+assume\\s+(.*)$").FindStringSubmatch(rest)
+				am := regexp.MustCompile("^\"((?:[^\"\\\\]|\\\\.)*)\"(?:#(\\d+))?\\s+(assume|assert)\\s+(.*)$").FindStringSubmatch(rest)
 				if am == nil {
 					cs.errf(file, r.line, "bad at-clause %q", t)
 					continue
 				}
 				src, _ := strconv.Unquote("\"" + am[1] + "\"")
 				occ, _ := strconv.Atoi(am[2])
-				if c := mkClause(am[3]); c != nil {
-					cur.atAssumes = append(cur.atAssumes, &atAssume{src: normSrc(src), occ: occ, cl: c})
+				if c := mkClause(am[4]); c != nil {
+					if am[3] == "assert" {
+						cur.atAsserts = append(cur.atAsserts, &atAssume{src: normSrc(src), occ: occ, cl: c})
+					} else {
+						cur.atAssumes = append(cur.atAssumes, &atAssume{src: normSrc(src), occ: occ, cl: c})
+					}
 				}
 			case "hint":
 				if c := mkClause(rest); c != nil {
@@ -381,6 +387,10 @@ func (cs *Contracts) parseFile(p *packages.Package, file string) {
 				}
 			case "panics":
 				cur.panics = rest
+				if strings.HasPrefix(rest, "iff ") {
+					cur.panics = "iff"
+					cur.panicsIff = mkClause(strings.TrimSpace(strings.TrimPrefix(rest, "iff ")))
+				}
 			case "assigns":
 				cur.assigns = append(cur.assigns, splitNames(rest)...)
 			case "pure":
